@@ -116,14 +116,23 @@ def build(rnd, k):
     ndata = 0
     if memk != 'none':
         for i in range(rnd.randint(0, 6)):
-            data = bytes(rnd.getrandbits(8) | 1 for _ in range(rnd.choice([0, 1, 5, 40, 700])))
+            L = rnd.choice([0, 1, 5, 40, 700])
+            style = rnd.random()
+            if style < 0.25:
+                data = b'\0' * L  # all-zero segments must still overwrite what earlier segments put there
+            elif style < 0.35:
+                data = b'\xff' * L
+            elif style < 0.6:
+                data = bytes(rnd.choice([0, 0, rnd.getrandbits(8)]) for _ in range(L))
+            else:
+                data = bytes(rnd.getrandbits(8) | 1 for _ in range(L))
             if rnd.random() < 0.25:
                 m.datas.append(dict(mode='passive', bytes=data))
             else:
                 if imm_imports and imm_imports[0][1] == I32 and rnd.random() < 0.4:
                     off = [('global.get', 0)]
                 else:
-                    off = [('i32.const', rnd.choice([0, 1, 16, 30, 64, 100, 65536 - len(data), rnd.randint(0, 2000)]))]
+                    off = [('i32.const', rnd.choice([0, 1, 3, 16, 20, 30, 64, 100, 65536 - len(data), rnd.randint(0, 2000)]))]  # few offsets: overlaps are frequent
                 m.datas.append(dict(mode='active', offset=off, bytes=data, flag=rnd.choice([0, 0, 2])))
             ndata += 1
         m.datacount = rnd.choice([True, None])
